@@ -5,6 +5,8 @@
 //! input line:  <framing>|<units>|<auth>|<frames>
 //!   framing : tcp | rtu
 //!   units   : - | u;u;...      u = uid:m:c:rex:wex:coils:discrete:holding:input   (given in ascending uid order)
+//!             or u = uid:=owner : unit id uid holds the same handler object as unit id owner (log entries
+//!             of a handler object carry the owner's unit id)
 //!             lists are `-` or comma separated dot-tuples:
 //!             rex  kind.addr.code   a read (kind 0 coil,1 discrete,2 holding,3 input) of addr raises code
 //!             wex  kind.addr.code   a write (kind 0 single coil,1 single register,2 coils,3 registers)
@@ -284,11 +286,25 @@ pub fn parse_unit(s: &str, log: &Log) -> (u8, Handler) {
 pub fn parse_units(field: &str, log: &Log) -> ServerHandlerMap<Handler> {
     let mut map: ServerHandlerMap<Handler> = ServerHandlerMap::new();
     if field != "-" {
-        // inserted in reverse, so that the order the session task visits them in (BTreeMap: ascending
-        // unit id) differs from the insertion order
+        // owners first, inserted in reverse, so that the order the session task visits them in
+        // (BTreeMap: ascending unit id) differs from the insertion order
+        let mut owners: Vec<(u8, rodbus::server::ServerHandlerType<Handler>)> = Vec::new();
         for u in field.split(';').rev() {
-            let (id, h) = parse_unit(u, log);
-            map.add(UnitId::new(id), h.wrap());
+            if !u.contains(":=") {
+                let (id, h) = parse_unit(u, log);
+                let h = h.wrap();
+                owners.push((id, h.clone()));
+                map.add(UnitId::new(id), h);
+            }
+        }
+        // `uid:=owner`: this unit id holds the SAME handler object as unit id `owner`
+        for u in field.split(';') {
+            if let Some((id, owner)) = u.split_once(":=") {
+                let id: u8 = id.parse().expect("unit id");
+                let owner: u8 = owner.parse().expect("owner unit id");
+                let h = owners.iter().find(|(o, _)| *o == owner).expect("owner must be configured").1.clone();
+                map.add(UnitId::new(id), h);
+            }
         }
     }
     map
